@@ -1,6 +1,6 @@
 (* C16 — per-case judgement of the real lexer/parser output (evaluated with vm_compute). *)
 From Coq Require Import MSets.MSetPositive Uint63.
-From SwayV Require Import Base.Util C16.Model C16.Spec.
+From SwayV Require Import Base.Util C16.Model C16.Spec C16.Join.
 Open Scope N_scope.
 
 (* ---- transport: coqc parses primitive-integer literals an order of magnitude faster than N
@@ -97,6 +97,24 @@ Definition impl_lex_spans (il : impl_lex) : list span :=
   | ILexPanic => []
   end.
 
+(* ---- structural tie for parser diagnostics: generators = spans of the (comment-stripped) token
+   stream the parser receives, the stream span, the lexer's own diagnostics (same handler), and the
+   end-of-stream spans of Parser::emit_error for the file and for every group *)
+Definition tok_gen_spans (ts : list tok) : list span :=
+  flat_map (fun t => match t with TComment _ _ => [] | _ => tok_spans t end) ts.
+Definition inner_spans (ts : list tok) : list span :=
+  flat_map (fun t => match t with TGroup _ _ i => [i] | _ => [] end) ts.
+Definition gens_cheap (il : impl_lex) : list span :=
+  match il with
+  | ILexOk ts full es => full :: tok_gen_spans ts ++ errs_spans es
+  | ILexErr es => errs_spans es
+  | ILexPanic => []
+  end.
+Definition gens_eos (ucls : N -> N) (src : list ci) (il : impl_lex) : list span :=
+  match il with ILexOk ts full _ => map (eos_span ucls src) (full :: inner_spans ts) | _ => [] end.
+Definition diag_derivedb (ucls : N -> N) (src : list ci) (il : impl_lex) (sp : span) : bool :=
+  derivedb (gens_cheap il) sp || derivedb (gens_cheap il ++ gens_eos ucls src il) sp.
+
 Definition same (m : res (list tok * span * list lerr)) (il : impl_lex) : bool :=
   match m, il with
   | ROk (ts, full, es), ILexOk ts' full' es' =>
@@ -117,7 +135,9 @@ Definition same (m : res (list tok * span * list lerr)) (il : impl_lex) : bool :
      0 no panic, every diagnostic span in bounds
      2 VIOLATION: parse_file panicked
      3 VIOLATION: a diagnostic span is out of bounds / off a char boundary
-     4 VIOLATION: a diagnostic span pointing into another source is invalid there *)
+     4 VIOLATION: a diagnostic span pointing into another source is invalid there
+     5 every diagnostic span in bounds, but one is NOT built (join / start / end) from the token spans,
+       lexer diagnostics and end-of-stream spans of this input (structural tie broken) *)
 Definition judge (cf : cfg) (nbytes : N) (s : list N) (tab : list (N * N)) (with_model : bool)
                  (il : impl_lex) (ip : impl_parse) : N * N :=
   let src := indices 0 s in
@@ -141,7 +161,9 @@ Definition judge (cf : cfg) (nbytes : N) (s : list N) (tab : list (N * N)) (with
   let pc :=
     match ip with
     | IParsePanic => 2
-    | IParse _ spans fb => if negb (forallb okf spans) then 3 else if negb (fb =? 0) then 4 else 0
+    | IParse _ spans fb =>
+      if negb (forallb okf spans) then 3 else if negb (fb =? 0) then 4
+      else if negb (forallb (diag_derivedb (ucls_of tab) src il) spans) then 5 else 0
     end in
   (lc, pc).
 
